@@ -3,6 +3,7 @@
 package vchan
 
 import (
+	"reflect"
 	"unsafe"
 
 	"github.com/welllog/golib/vshim/core"
@@ -124,4 +125,91 @@ func (c *Chan[T]) Cap() int {
 		return 0
 	}
 	return c.cap
+}
+
+// ---------------------------------------------------------------- select
+
+// Case is one communication clause of a rewritten select statement.
+type Case struct {
+	ch   selChan
+	send bool
+	val  any
+	def  bool
+}
+
+type selChan interface {
+	isNil() bool
+	ready(send bool) bool
+	do(send bool, v any)
+	realValue() reflect.Value
+}
+
+func (c *Chan[T]) isNil() bool { return c == nil }
+func (c *Chan[T]) ready(send bool) bool {
+	if send {
+		return c.closed || len(c.buf) < c.cap
+	}
+	return c.closed || len(c.buf) > 0
+}
+func (c *Chan[T]) do(send bool, v any) {
+	if send {
+		c.Send(v.(T))
+	} else {
+		c.Recv()
+	}
+}
+func (c *Chan[T]) realValue() reflect.Value { return reflect.ValueOf(c.real) }
+
+func RecvCase[T any](c *Chan[T]) Case       { return Case{ch: c} }
+func SendCase[T any](c *Chan[T], v T) Case  { return Case{ch: c, send: true, val: v} }
+func DefaultCase() Case                      { return Case{def: true} }
+
+// Select models a select statement over modelled channels: it is one blocking scheduling point,
+// enabled iff some case is ready (or there is a default). Among several ready cases the first in
+// source order is taken (Go chooses at random; this is an under-approximation that is stated in
+// DESIGN.md — timers, the usual second case, are separate virtual threads, so "timer first" and
+// "other case first" are both explored).
+func Select(cases ...Case) int {
+	if !core.Controlled {
+		rc := make([]reflect.SelectCase, len(cases))
+		for i, c := range cases {
+			switch {
+			case c.def:
+				rc[i] = reflect.SelectCase{Dir: reflect.SelectDefault}
+			case c.ch.isNil():
+				rc[i] = reflect.SelectCase{Dir: reflect.SelectRecv} // nil channel: never ready
+			case c.send:
+				rc[i] = reflect.SelectCase{Dir: reflect.SelectSend, Chan: c.ch.realValue(), Send: reflect.ValueOf(c.val)}
+			default:
+				rc[i] = reflect.SelectCase{Dir: reflect.SelectRecv, Chan: c.ch.realValue()}
+			}
+		}
+		i, _, _ := reflect.Select(rc)
+		return i
+	}
+	pick := func() int {
+		def := -1
+		for i, c := range cases {
+			if c.def {
+				def = i
+				continue
+			}
+			if !c.ch.isNil() && c.ch.ready(c.send) {
+				return i
+			}
+		}
+		return def
+	}
+	core.Point(core.KSelect, nil, func() bool { return pick() >= 0 })
+	if core.Exiting() {
+		return 0
+	}
+	i := pick()
+	if i < 0 {
+		panic("vchan: select with no ready case in a sequential phase (would block forever)")
+	}
+	if !cases[i].def {
+		core.InStep(func() { cases[i].ch.do(cases[i].send, cases[i].val) })
+	}
+	return i
 }
